@@ -194,6 +194,36 @@ fn check_transparent(d: &GNode, tys: &[crate::tyseed::Ty], out: &mut Vec<serde_j
     }
 }
 
+/// transparency with the anchor WRAPPER types as targets (`RcAnchor<T>` at the anchored and at the aliased position): the
+/// value behind every pointer of the aliased document equals the value in the expanded document, also when the anchored
+/// node carries core-schema tags, `!!binary` payloads, nested containers
+fn transparency_oracle_wrappers(out: &mut Vec<serde_json::Value>, stats: &mut Sink) {
+    use serde_saphyr::{ArcAnchor, RcAnchor};
+    #[derive(Debug, serde::Deserialize, PartialEq, Clone)]
+    struct Inner { v: i32, #[serde(default)] s: Option<String>, #[serde(default)] f: Option<f64>, #[serde(default)] t: Option<bool>, #[serde(default)] l: Vec<u8> }
+    let nodes = ["!!int 5", "5", "{v: !!int 5, s: !!str x}", "{v: 7, f: !!float 1.5, t: !!bool true}", "{v: 1, l: !!binary AAEC}", "{v: 2, l: [1, 2]}", "{v: 3, s: !!str ~}", "{v: 4, s: \"q\"}"];
+    for node in nodes {
+        let aliased = format!("- &a {node}\n- *a\n- *a\n");
+        let expanded = format!("- {node}\n- {node}\n- {node}\n");
+        stats.count("oracle.wrapper_transparency");
+        macro_rules! cmp { ($t:ty, $proj:expr, $name:expr) => {{
+            let a = serde_saphyr::from_str::<Vec<$t>>(&aliased).map(|v| v.iter().map($proj).collect::<Vec<_>>()).map_err(|e| crate::errs::kind(&e).to_string());
+            let e = serde_saphyr::from_str::<Vec<$t>>(&expanded).map(|v| v.iter().map($proj).collect::<Vec<_>>()).map_err(|e| crate::errs::kind(&e).to_string());
+            if a.is_ok() != e.is_ok() || (a.is_ok() && a != e) {
+                out.push(serde_json::json!({"id": "C02-alias-not-transparent", "what": format!("anchor wrapper target {}: value of the aliased document differs from the value of its expansion", $name),
+                    "input": aliased, "expanded": expanded, "observed": format!("{a:?}"), "expected": format!("{e:?}")}));
+            }
+        }}; }
+        if node.starts_with('{') {
+            cmp!(RcAnchor<Inner>, |p: &RcAnchor<Inner>| (*p.0).clone(), "RcAnchor<struct>");
+            cmp!(ArcAnchor<Inner>, |p: &ArcAnchor<Inner>| (*p.0).clone(), "ArcAnchor<struct>");
+        } else {
+            cmp!(RcAnchor<i32>, |p: &RcAnchor<i32>| *p.0, "RcAnchor<i32>");
+            cmp!(ArcAnchor<i32>, |p: &ArcAnchor<i32>| *p.0, "ArcAnchor<i32>");
+        }
+    }
+}
+
 fn alias_heavy(rng: &mut Rng) -> String {
     // alias chains / bombs / aliases inside anchored containers
     match rng.below(5) {
@@ -310,6 +340,7 @@ fn generate(a: &Args) -> i32 {
     for _ in 0..(if a.thorough { 10000 } else { 1000 }) {
         transparency_oracle_merge(&mut rng, &mut fails, &mut sink);
     }
+    transparency_oracle_wrappers(&mut fails, &mut sink);
     // fixed witnesses of past findings
     for (aliased, expanded) in [("&a \"\"", "\"\""), ("- &a ''\n- *a\n", "- ''\n- ''\n"), ("k: &a \"\"\nj: *a\n", "k: \"\"\nj: \"\"\n")] {
         let cfg = crate::e2e::Cfg { dup: 2, legacy_octal: false, strict_bool: false, ignore_binary: false, no_schema: false, budget: None, limits: AliasLimits::default() };
